@@ -84,10 +84,9 @@ pub(crate) fn create_task_mapping(
                             TaskRuntimeState::Prefilled {
                                 worker_id: old_worker_id,
                             } => {
-                                worker_map
-                                    .get_mut(old_worker_id)
-                                    .unwrap()
-                                    .remove_prefill_task(task_id);
+                                let old_worker = worker_map.get_mut(old_worker_id).unwrap();
+                                old_worker.remove_prefill_task(task_id);
+                                old_worker.retract_started();
                                 mapping
                                     .workers
                                     .entry(*old_worker_id)
